@@ -159,9 +159,16 @@ def check_C15(chk):
     chk.cov['simulated_histories'] = len(groups)
     for hi, (ops, dels) in enumerate(edge_histories(r)):
         groups.append(history_lines(r, f"h{hi}", ops, dels, obj=hi % 8))
+    # carry chains of V + Hash(3||V) + C + counter that sampling cannot reach: chosen states written into the object
+    for ki, kind in enumerate(['wrap', 'wrap', 'ff', 'cff', 'zero', 'rand', 'wrap']):
+        cnt = [32700, 9000, 5, 32760, 77, 1234, 32767][ki]
+        groups.append(["script clear=1 items=" + '/'.join(script_items(r, ['full'] * 3)),
+                       f"pinject id=j{ki}-i obj={ki % 8} kind={kind} counter={cnt} seed={r.randint(1, 10 ** 9)}",
+                       f"pgen id=j{ki}-g obj={ki % 8} size=96 ctl=0 pf=165", f"pgen id=j{ki}-h obj={ki % 8} size=40 ctl=0 pf=0"])
     execs = run_exec_groups(exe, groups)
     annotate_ctl(execs, groups)
     judge_p(chk, execs, groups)
+    chk.cov['injected_states'] = sum(1 for ex in execs for e in ex if e.get('e') == 'PInject')
     nres = sum(len(e.get('ent', [])) for ex in execs for e in ex if e.get('e') == 'PGen')
     chk.cov['automatic_reseeds_observed'] = nres
     if nres < 5:
@@ -396,6 +403,8 @@ def check_C18(chk):
                         items.append(f"OPENFAIL:{[2, 13, 24][si % 3]}")
                     elif o == 'SHORT':
                         items.append(f"SHORT:{[1, 16, 31][si % 3]}")
+                    elif o == 'PARTIAL':
+                        items.append(f"PARTIAL:{[16, 1, 31, 8][si % 4]}")
                     else:
                         items.append(o)
                 lines.append(f"seq id={variant}-{cc}{opt}-{si} prefill={[0, 255, 165, 85][si % 4]} errno={[0, 11, 4, 0, 5][si % 5]} items={','.join(items)}")
